@@ -112,6 +112,12 @@ func scanFile(path string) (recs []scanRec, ok bool) {
 // record is the current record of its key (live value or retained tombstone), each once.
 // tombstoneFree: GC started at file 0, so no tombstone of a key absent from the tree may remain.
 func (s *scen) reclaimed(begin, end int, where string) {
+	s.reclaimedKnown(begin, end, where, "", false)
+}
+
+// reclaimedKnown is reclaimed where a surviving superseded TOMBSTONE of a deleted key is
+// classified as known finding id when cond holds (everything else stays a plain assertion).
+func (s *scen) reclaimedKnown(begin, end int, where, id string, cond bool) {
 	seen := map[string]bool{}
 	for c := begin; c <= end; c++ {
 		recs, ok := scanFile(genDataPath(s.dir, c))
@@ -122,14 +128,26 @@ func (s *scen) reclaimed(begin, end int, where string) {
 			if m == nil {
 				continue
 			}
-			vrt.Assert(where+":each-key-at-most-once", !seen[r.key])
+			oldTombstone := m.ver < 0 && r.ver < 0
+			if id != "" && oldTombstone {
+				vrt.AssertKnown(where+":each-key-at-most-once", id, cond, !seen[r.key])
+			} else {
+				vrt.Assert(where+":each-key-at-most-once", !seen[r.key])
+			}
 			seen[r.key] = true
 			if m.ver > 0 {
 				// a live key: the surviving record must be its current value (never a superseded
 				// value, never a tombstone)
 				vrt.Assert(where+":surviving-record-is-current", vrt.All(r.ver > 0, len(r.body) == len(m.body)) && vrt.All(vrt.BytesEq(r.body, m.body), r.flag&^FLAG_COMPRESS == m.flag))
 			} else {
+				// a deleted key: only its CURRENT tombstone may be retained (an older tombstone
+				// or an older value is a superseded record)
 				vrt.Assert(where+":only-tombstones-of-deleted-keys", r.ver < 0)
+				if id != "" {
+					vrt.AssertKnown(where+":retained-tombstone-is-the-current-one", id, cond, r.ver == m.ver)
+				} else {
+					vrt.Assert(where+":retained-tombstone-is-the-current-one", r.ver == m.ver)
+				}
 			}
 		}
 	}
